@@ -117,7 +117,27 @@ def replacement_certainly_empty(it, u, ctx):
 def explore_expand(P, u, with_empty=False):
     """paths of expand_macro(rest, tok) with every helper opaque; returns (it, [(ctx, out, info)]).
     with_empty=False: paths on which the replacement is known to be empty are left out (there is no first token of the
-    replacement to speak about; R09.15 looks at them)."""
+    replacement to speak about; R09.15 looks at them).
+    The exploration itself is done once per Program (C09 runs the rules of C19 on it too)."""
+    memo = _memo(P)
+    if 'expand' not in memo:
+        memo['expand'] = _explore_expand(P, u)
+    it, allp = memo['expand']
+    return it, [(ctx, o, rest) for ctx, o, rest in allp if with_empty or not replacement_certainly_empty(it, u, ctx)]
+
+
+def _memo(P):
+    m = getattr(P, '_c09x_memo', None)
+    if m is None:
+        m = {}
+        try:
+            P._c09x_memo = m
+        except Exception:
+            pass
+    return m
+
+
+def _explore_expand(P, u):
     for f in EXPAND_ANCHORS:
         if f not in u.functions:
             raise AnalysisBroken('anchor function %s vanished from %s' % (f, U))
@@ -168,12 +188,7 @@ def explore_expand(P, u, with_empty=False):
         return [_Ref(VarPlace(box, 'rest')), tok]
 
     paths = it.explore('expand_macro', mk)
-    out = []
-    for ctx, o in paths:
-        if not with_empty and replacement_certainly_empty(it, u, ctx):
-            continue
-        out.append((ctx, o, ctx.box['rest']))
-    return it, out
+    return it, [(ctx, o, ctx.box['rest']) for ctx, o in paths]
 
 
 # ------------------------------------------------------------------------ subst ---
@@ -182,7 +197,16 @@ SUBST_ANCHORS = ('subst', 'find_arg', 'stringize', 'paste', 'preprocess2', 'copy
 
 def explore_subst(P, u, loop_limit=2, only=None, max_paths=200000):
     """paths of subst(body, args) over abstract body tokens; each token has one spelling-class cell.
-    only: restrict the spellings of replacement-list tokens to these classes (a sub-language of replacement lists)."""
+    only: restrict the spellings of replacement-list tokens to these classes (a sub-language of replacement lists).
+    One exploration per Program and parameter set: the consumers only read the paths."""
+    memo = _memo(P)
+    key = ('subst', loop_limit, tuple(only) if only else None, max_paths)
+    if key not in memo:
+        memo[key] = _explore_subst(P, u, loop_limit, only, max_paths)
+    return memo[key]
+
+
+def _explore_subst(P, u, loop_limit, only, max_paths):
     from .lib_c09 import (literals_compared, make_equal_model, make_find_arg_model, m_copy_token, copy_lazy_field, PARAM, OTHER)
     for f in SUBST_ANCHORS:
         if f not in u.functions:
